@@ -17,7 +17,7 @@ RULE = ('grammar-directed random programs (profiles sequential/deep: 1-5 functio
         'positions, global shadowing, by-reference arrays, recursion, entry-point arguments), each run at word sizes '
         '2,3,4 (8 on a sample) x generous stack + 2 tight stacks; a case is one (program, args); non-trivial = the '
         'model executed >= 1 user call and the committed output has >= 20 bytes; distinct by hash of (source, args); plus the enumerated idiom grids of gen/idioms.py '
-        '(204 scoping/shadowing programs, 96 left-operand x right-operand programs, 448 + 51 value-capture programs, 48 narrowing programs, 8 fresh-literal programs, 15 expression-statement and 9 tail-call programs, neighbouring globals of every type, 20-element bit-vectors, overloads by arity in every declaration order, 12 programs of coinciding constant tables, 319 entry-point signatures), each with 2-3 argument vectors, at word sizes 2, 3, 4, 8 and in rotation 5, 6, 7, 12, 16 bytes; plus the scale grids of gen/scale.py (1-257 locals per frame in 3 shapes, 1-65 parameters, arrays of 7-1000 elements x 3 element types x 3 storage classes, 9-111 loops/ifs/tables/strings per program, nesting depth 3-10 x 4 exit routes, 10-257 globals)')
+        '(204 scoping/shadowing programs, 96 left-operand x right-operand programs, 448 + 51 value-capture programs, 48 narrowing programs, 8 fresh-literal programs, 15 expression-statement and 9 tail-call programs, neighbouring globals of every type, 20-element bit-vectors, overloads by arity in every declaration order, 12 programs of coinciding constant tables, 319 entry-point signatures), each with 2-3 argument vectors, at word sizes 2, 3, 4, 8 and in rotation 5, 6, 7, 12, 16 bytes; plus the scale grids of gen/scale.py (1-257 locals per frame in 3 shapes, 1-65 parameters, arrays of 7-1000 elements x 3 element types x 3 storage classes, 9-111 loops/ifs/tables/strings per program, nesting depth 3-10 x 4 exit routes, 10-257 globals, expressions nested 6-28 deep in 5 forms x 6 usages)')
 ASSUMPTIONS = common.ISA_ASSUMPTIONS
 REQUIRED_HIDC_FUNCTIONS = ['codegen/generator:CodeGen.eval_expr', 'codegen/generator:CodeGen.eval_func_call', 'codegen/generator:CodeGen.lookup_var']     # M-COV: deciding code never entered => inconclusive
 MIN_NONTRIVIAL = {'quick': 100, 'thorough': 1000}
@@ -129,7 +129,7 @@ def run_shard(spec):
     if spec['kind'] == 'scale':
         # scale grids (gen/scale.py): counts and sizes across the thresholds of frame offsets, element counts and label numbers
         words = (2, 3, 4, 8)
-        for k, tag, prog, argsets in common.scale_items(('locals', 'params', 'array', 'labels', 'nesting', 'globals', 'entry')):
+        for k, tag, prog, argsets in common.scale_items(('locals', 'params', 'array', 'labels', 'nesting', 'globals', 'entry', 'expr')):
             if k % spec['parts'] != spec['part']:
                 continue
             j = k // spec['parts']
